@@ -20,6 +20,15 @@ package genbank
 //
 // A failing case is attributed to a witness class by delta debugging over named
 // shape axes (c03Blame), as in C01.
+//
+// Beyond the shapes shared with C01 the enumerations cover references given
+// with every subset of their five fields (axes reference-without-authors,
+// -title, -journal, -pubmed, reference-remark) and partial markers on
+// complemented spans, on operands of joins and inside complement(join()) (axes
+// complement-with-partial-end, partial-end). Where the writer puts a 3' marker
+// (a..b> for a..>b) is C02's finding three-prime-marker-placement; poly's reader
+// accepts its writer's form, so the identity clauses are not affected, and the
+// layout clause reads both notations as the same partial end (c03MarkerPlace).
 
 import (
 	"bytes"
@@ -50,15 +59,39 @@ type c03Feat struct {
 	Ranges     [][2]int // 1-based inclusive
 	Join       bool
 	Compl      bool
-	Partial    int   // 0 none, 1 "<a..b", 2 "a..>b" (single plain range only)
+	Partial    int   // single range, plain or inside complement(): 0 none, 1 "<a..b", 2 "a..>b", 3 "<a..>b"
 	Single     bool  // single base "a"
 	BreakAfter []int // indexes of ranges after which the writer starts a new line
 	Quals      []c03Qual
 	OpCompl    []bool // join only: operand i is written complement(a..b) (a complemented operand below the top level)
+	OpPartial  []int  // join only: the markers of operand i, coded like Partial
 }
 
 // c03OpC: operand i of the join is complemented.
 func (f *c03Feat) c03OpC(i int) bool { return f.Join && i < len(f.OpCompl) && f.OpCompl[i] }
+
+// c03OpP: the markers of range i (the single range, or operand i of the join).
+func (f *c03Feat) c03OpP(i int) int {
+	if !f.Join {
+		return f.Partial
+	}
+	if i < len(f.OpPartial) {
+		return f.OpPartial[i]
+	}
+	return 0
+}
+
+// c03ComplPartial: range i is a complemented node that carries a marker itself:
+// complement(<a..b) alone or as an operand of a join.
+func (f *c03Feat) c03ComplPartial(i int) bool {
+	if f.Single || f.c03OpP(i) == 0 {
+		return false
+	}
+	if !f.Join {
+		return f.Compl
+	}
+	return f.c03OpC(i)
+}
 
 func c03AnyOpCompl(f *c03Feat) bool {
 	for i := range f.Ranges {
@@ -125,6 +158,7 @@ func c03CloneRec(r *c03Rec) c03Rec {
 		x.BreakAfter = append([]int(nil), x.BreakAfter...)
 		x.Quals = append([]c03Qual(nil), x.Quals...)
 		x.OpCompl = append([]bool(nil), x.OpCompl...)
+		x.OpPartial = append([]int(nil), x.OpPartial...)
 		c.Feats[i] = x
 	}
 	return c
@@ -151,10 +185,11 @@ func c03RangeText(f *c03Feat, i int) string {
 		return strconv.Itoa(r[0])
 	}
 	a, b := strconv.Itoa(r[0]), strconv.Itoa(r[1])
-	switch f.Partial {
-	case 1:
+	p := f.c03OpP(i)
+	if p&1 != 0 {
 		a = "<" + a
-	case 2:
+	}
+	if p&2 != 0 {
 		b = ">" + b
 	}
 	return a + ".." + b
@@ -216,20 +251,57 @@ func c03LocLines(f *c03Feat) []string {
 }
 
 // c03LocStruct gives the same location as a poly.Location, for the shapes whose
-// structure is not in dispute (C02 owns the rest).
+// structure is not in dispute (a single base is written n..n: C02 owns that).
+// The partial flags sit on the span that carries the marker (also when that
+// span is itself the complemented node: complement(<a..b) is one node with
+// Complement and FivePrimePartial set) and, as in the structures the parser
+// returns, on the join above it.
 func c03LocStruct(f *c03Feat) (poly.Location, bool) {
-	if f.Single || f.Partial == 2 {
+	if f.Single {
 		return poly.Location{}, false
 	}
+	span := func(i int, compl bool) poly.Location {
+		r, p := f.Ranges[i], f.c03OpP(i)
+		return poly.Location{Start: r[0] - 1, End: r[1], Complement: compl, FivePrimePartial: p&1 != 0, ThreePrimePartial: p&2 != 0}
+	}
 	if !f.Join {
-		r := f.Ranges[0]
-		return poly.Location{Start: r[0] - 1, End: r[1], Complement: f.Compl, FivePrimePartial: f.Partial == 1}, true
+		return span(0, f.Compl), true
 	}
 	l := poly.Location{Join: true, Complement: f.Compl}
-	for i, r := range f.Ranges {
-		l.SubLocations = append(l.SubLocations, poly.Location{Start: r[0] - 1, End: r[1], Complement: f.c03OpC(i)})
+	for i := range f.Ranges {
+		k := span(i, f.c03OpC(i))
+		l.SubLocations = append(l.SubLocations, k)
+		l.FivePrimePartial = l.FivePrimePartial || k.FivePrimePartial
+		l.ThreePrimePartial = l.ThreePrimePartial || k.ThreePrimePartial
 	}
 	return l, true
+}
+
+// c03MarkerPlace rewrites "..>n" as "..n>". Where a 3' marker goes (a..>b in
+// INSDC, a..b> from this writer) is judged by C02's clause
+// BuildLocationString/post/insdc (class three-prime-marker-placement); the
+// layout clause of C03 reads both notations as the same partial end.
+func c03MarkerPlace(s string) string {
+	if !strings.Contains(s, "..>") {
+		return s
+	}
+	var b strings.Builder
+	for i := 0; i < len(s); {
+		if strings.HasPrefix(s[i:], "..>") {
+			j := i + 3
+			for j < len(s) && s[j] >= '0' && s[j] <= '9' {
+				j++
+			}
+			b.WriteString("..")
+			b.WriteString(s[i+3 : j])
+			b.WriteByte('>')
+			i = j
+			continue
+		}
+		b.WriteByte(s[i])
+		i++
+	}
+	return b.String()
 }
 
 // c03Wrap: greedy word wrap at single spaces.
@@ -486,6 +558,26 @@ func c03RecAxis(name string, present func(r *c03Rec) bool, neutral func(r *c03Re
 				}
 			}
 		}}
+}
+
+// c03RefFieldAxis: some reference of the record lacks a field; neutral fills it in.
+func c03RefFieldAxis(name string, lacks func(x *c03Ref) bool, fill func(x *c03Ref)) c03Axis {
+	return c03RecAxis(name,
+		func(r *c03Rec) bool {
+			for i := range r.Refs {
+				if lacks(&r.Refs[i]) {
+					return true
+				}
+			}
+			return false
+		},
+		func(r *c03Rec) {
+			for i := range r.Refs {
+				if lacks(&r.Refs[i]) {
+					fill(&r.Refs[i])
+				}
+			}
+		})
 }
 
 const c03NeutralLen = 120
@@ -799,6 +891,63 @@ func c03Axes() []c03Axis {
 					}
 				})
 			}),
+		// a complemented span that carries a partial marker itself:
+		// complement(<a..b), complement(a..>b), alone or as an operand of a join
+		c03RecAxis("complement-with-partial-end",
+			func(r *c03Rec) bool {
+				for i := range r.Feats {
+					for k := range r.Feats[i].Ranges {
+						if r.Feats[i].c03ComplPartial(k) {
+							return true
+						}
+					}
+				}
+				return false
+			},
+			func(r *c03Rec) {
+				for i := range r.Feats {
+					f := &r.Feats[i]
+					for k := range f.Ranges {
+						if !f.c03ComplPartial(k) {
+							continue
+						}
+						if f.Join {
+							f.OpPartial[k] = 0
+						} else {
+							f.Partial = 0
+						}
+					}
+				}
+			}),
+		// a partial marker on a span that is not itself complemented: <a..b,
+		// join(<a..b,c..d), complement(join(a..b,c..>d))
+		c03RecAxis("partial-end",
+			func(r *c03Rec) bool {
+				for i := range r.Feats {
+					f := &r.Feats[i]
+					for k := range f.Ranges {
+						if !f.Single && f.c03OpP(k) != 0 && !f.c03ComplPartial(k) {
+							return true
+						}
+					}
+				}
+				return false
+			},
+			func(r *c03Rec) {
+				for i := range r.Feats {
+					f := &r.Feats[i]
+					for k := range f.Ranges {
+						if f.Single || f.c03OpP(k) == 0 || f.c03ComplPartial(k) {
+							continue
+						}
+						if f.Join {
+							f.OpPartial[k] = 0
+						} else {
+							f.Partial = 0
+						}
+					}
+				}
+			}),
 		// an operand of a join inside complement(): a complemented node below
 		// the top level of the location
 		c03RecAxis("complemented-operand",
@@ -899,6 +1048,13 @@ func c03Axes() []c03Axis {
 					}
 				}
 			}),
+		// a reference given without one of AUTHORS, TITLE, JOURNAL, PUBMED (the
+		// fields that are there may be any of the others: TITLE without AUTHORS,
+		// REMARK without PUBMED, ...)
+		c03RefFieldAxis("reference-without-authors", func(x *c03Ref) bool { return c03J(x.Authors) == "" }, func(x *c03Ref) { x.Authors = []string{"x"} }),
+		c03RefFieldAxis("reference-without-title", func(x *c03Ref) bool { return c03J(x.Title) == "" }, func(x *c03Ref) { x.Title = []string{"x"} }),
+		c03RefFieldAxis("reference-without-journal", func(x *c03Ref) bool { return c03J(x.Journal) == "" }, func(x *c03Ref) { x.Journal = []string{"x"} }),
+		c03RefFieldAxis("reference-without-pubmed", func(x *c03Ref) bool { return x.PubMed == "" }, func(x *c03Ref) { x.PubMed = "1" }),
 		c03RecAxis("reference-remark",
 			func(r *c03Rec) bool {
 				for _, x := range r.Refs {
@@ -2483,11 +2639,12 @@ func c03Layout2(res *c03Result, f *c03File) string {
 	for i := 0; i < n; i++ {
 		g, wf := rd.Feats[i], w.Features[i]
 		p := "independent reader: feature " + strconv.Itoa(i+1) + " (" + wf.Type + ") "
-		loc := wf.GbkLocationString
+		loc, gloc := wf.GbkLocationString, g.Loc
 		if loc == "" {
-			loc = c03LocText(&f.Recs[0].Feats[i]) // no text was given: the INSDC text of the structure
+			// no text was given: the INSDC text of the structure, the place of a 3' marker left to C02
+			loc, gloc = c03MarkerPlace(c03LocText(&f.Recs[0].Feats[i])), c03MarkerPlace(gloc)
 		}
-		if d := c03First(c03Diff(p+"key", g.Key, wf.Type), c03Diff(p+"location", g.Loc, loc)); d != "" {
+		if d := c03First(c03Diff(p+"key", g.Key, wf.Type), c03Diff(p+"location", gloc, loc)); d != "" {
 			return d
 		}
 		if d := c03MapEq(wf.Attributes, g.Quals); d != "" {
@@ -2789,6 +2946,98 @@ func c03OpComplPattern(pattern, arity int) []bool {
 	return out
 }
 
+// the fields of a reference in the subset enumeration, bit i of the mask = field i given
+var c03RefFields = []string{"AUTHORS", "TITLE", "JOURNAL", "PUBMED", "REMARK"}
+
+func c03PartialShapeNames() string {
+	names := make([]string, len(c03PartialShapes))
+	for i := range c03PartialShapes {
+		names[i] = c03PartialShapes[i].name
+	}
+	return strings.Join(names, "  ")
+}
+
+func c03RefMaskName(mask int) string {
+	var out []string
+	for i, n := range c03RefFields {
+		if mask&(1<<i) != 0 {
+			out = append(out, n)
+		}
+	}
+	if len(out) == 0 {
+		return "none"
+	}
+	return strings.Join(out, "+")
+}
+
+// c03RefSubset: a reference with exactly the fields of mask.
+func c03RefSubset(rng *rand.Rand, mask int) c03Ref {
+	var x c03Ref
+	if mask&1 != 0 {
+		x.Authors = []string{c03Text(rng, c03MetaAlpha, 30)}
+	}
+	if mask&2 != 0 {
+		x.Title = []string{c03Text(rng, c03MetaAlpha, 40)}
+	}
+	if mask&4 != 0 {
+		x.Journal = []string{c03Text(rng, c03MetaAlpha, 30)}
+	}
+	if mask&8 != 0 {
+		x.PubMed = c03Word(rng, c03Digits, 6, 8)
+	}
+	if mask&16 != 0 {
+		x.Remark = []string{c03Text(rng, c03MetaAlpha, 30)}
+	}
+	return x
+}
+
+// where the reference with the field subset stands
+var c03RefPlaces = []string{"only-reference", "first-of-two", "second-of-two"}
+
+// partial markers on and around complemented nodes: the locations of the
+// enumeration. compl = the whole location inside complement(); join = false: a
+// single span with markers p[0]; join = true: two spans, operand i with markers
+// p[i] (1 '<', 2 '>', 3 both), written complement(...) where opc[i].
+type c03PartialShape struct {
+	name  string
+	join  bool
+	compl bool
+	p     [2]int
+	opc   [2]bool
+}
+
+var c03PartialShapes = []c03PartialShape{
+	{"complement(<a..b)", false, true, [2]int{1, 0}, [2]bool{}},
+	{"complement(a..>b)", false, true, [2]int{2, 0}, [2]bool{}},
+	{"complement(<a..>b)", false, true, [2]int{3, 0}, [2]bool{}},
+	{"<a..>b", false, false, [2]int{3, 0}, [2]bool{}},
+	{"a..>b", false, false, [2]int{2, 0}, [2]bool{}},
+	{"join(complement(<a..b),c..d)", true, false, [2]int{1, 0}, [2]bool{true, false}},
+	{"join(a..b,complement(c..>d))", true, false, [2]int{0, 2}, [2]bool{false, true}},
+	{"join(complement(<a..b),complement(c..>d))", true, false, [2]int{1, 2}, [2]bool{true, true}},
+	{"join(<a..b,c..>d)", true, false, [2]int{1, 2}, [2]bool{}},
+	{"join(<a..b,complement(c..d))", true, false, [2]int{1, 0}, [2]bool{false, true}},
+	{"complement(join(<a..b,c..d))", true, true, [2]int{1, 0}, [2]bool{}},
+	{"complement(join(a..b,c..>d))", true, true, [2]int{0, 2}, [2]bool{}},
+	{"complement(join(<a..b,c..>d))", true, true, [2]int{1, 2}, [2]bool{}},
+	{"complement(join(complement(<a..b),c..d))", true, true, [2]int{1, 0}, [2]bool{true, false}},
+}
+
+// c03SetPartialShape gives the feature the location of the shape on a sequence of n letters.
+func c03SetPartialShape(rng *rand.Rand, ft *c03Feat, sh *c03PartialShape, n int) {
+	ft.Ranges, ft.Join, ft.Compl, ft.Partial, ft.Single, ft.BreakAfter, ft.OpCompl, ft.OpPartial = nil, sh.join, sh.compl, 0, false, nil, nil, nil
+	if !sh.join {
+		ft.Ranges, ft.Partial = [][2]int{c03RandRange(rng, n)}, sh.p[0]
+		return
+	}
+	ft.Ranges = [][2]int{c03RandRange(rng, n), c03RandRange(rng, n)}
+	ft.OpPartial = []int{sh.p[0], sh.p[1]}
+	if sh.opc[0] || sh.opc[1] {
+		ft.OpCompl = []bool{sh.opc[0], sh.opc[1]}
+	}
+	c03FitBreaks(ft)
+}
+
 func TestVerifC03(t *testing.T) {
 	nRand := 300
 	if verifThorough() {
@@ -2797,12 +3046,14 @@ func TestVerifC03(t *testing.T) {
 	tmp := t.TempDir()
 	prof := c03Profile{MaxMeta: 2000, MaxQuals: 8, MaxLen: 100000, ManyOthers: true, LongTokens: true}
 
-	src := "records r from three sources: (a) Parse of a file laid out by an independent NCBI-layout writer, (b) structured poly.Sequence with GbkLocationString set, (c) structured with SequenceLocation only (locations a..b, complement, join, complement(join), joins with complemented operands such as join(complement(a..b),complement(c..d)) and complement(join(complement(a..b),c..d)), 5' partial); every case keeps a deep copy of r taken before the first write; "
+	src := "records r from three sources: (a) Parse of a file laid out by an independent NCBI-layout writer, (b) structured poly.Sequence with GbkLocationString set, (c) structured with SequenceLocation only (locations a..b, complement, join, complement(join), joins with complemented operands such as join(complement(a..b),complement(c..d)) and complement(join(complement(a..b),c..d)), spans partial at the 5' end, the 3' end or both, also where the partial span is itself the complemented node, as in complement(<a..b), or an operand of a join; the partial flags sit on the span that carries the marker and, as in the structures the parser returns, on the join above it; a single base is given as text); every case keeps a deep copy of r taken before the first write; "
 	shapeDom := "shape enumeration: sequence length {7,12,345,1234,12345,100000} x qualifiers per feature {0,1,2,8} x value shape {plain,slash,equals,wrap,empty} x source {a,b,c}, two features, one reference with and without REMARK, 0..3 extra keyword blocks, DEFINITION up to 2000 characters in every third case; locus names of 1..24, 32 and 40 characters (16 = width of the name field in columns 13-28) x length {7,12,345} x source {a,b,c}, 4 molecule types x {linear,circular,none}; structured records (sources b, c) that carry a keyword with no text: {" + strings.Join(c03EmptyKinds, ", ") + "} empty (COMMENT, DBLINK = Meta.Other entries with empty text) x 0 or 1 reference x with or without a filled extra keyword; " +
 		"structured records (sources b, c) with every subset of the LOCUS columns {molecule type, topology, division, date} left empty (all four empty = a bare LOCUS line, name and length only) x length {7,345}; " +
 		"unbreakable tokens: one blank-free URL-like token of {69,100,300} characters (longer than the 68-column text field) as the whole text or as the first, a middle or the last word of two to three lines of text in each of {" + strings.Join(c03TokenPlaces, ", ") + "} (reference fields: of the one reference) x source {a,b,c} on a 345-letter record with one feature, one complete reference, DBLINK and COMMENT; " +
-		"complemented operands below the top level: two features whose location is a join of {2,3,4} spans with {all, the first, the last, every other} operand(s) written complement(a..b), the join plain or itself inside complement() x length {12,345} x 1 or 2 qualifiers x source {a,b,c} (source c = the structure alone, Complement set on the SubLocations; sources a, b lay the text out on lines of at most 58 columns); "
-	randDom := fmt.Sprintf("plus %d seeded-random records (sources cycling a,b,c): length 1..100000 (digit count uniform), locus name 1..40 characters (17..40 in one case of twelve), in structured records ORGANISM and/or an extra keyword text empty in up to three cases of eight, 0..40 features with 0..8 qualifiers (values over printable ASCII without the double quote, single-spaced words, up to 230 characters), 0..5 references with optional TITLE/PUBMED/REMARK, COMMENT/DBLINK/PROJECT/SEGMENT blocks, metadata texts up to 2000 characters, in one record in five one blank-free token of 69..300 characters inside one of the texts (DEFINITION, KEYWORDS, SOURCE, ORGANISM, a reference field or an extra keyword block), in one structured record in six a non-empty subset of the LOCUS columns molecule type, topology, division, date left empty; in every other random record each join gets, with probability 1/2, a random non-empty set of complemented operands; every 50th random case goes through Write and Read on a temporary file; ", nRand)
+		"complemented operands below the top level: two features whose location is a join of {2,3,4} spans with {all, the first, the last, every other} operand(s) written complement(a..b), the join plain or itself inside complement() x length {12,345} x 1 or 2 qualifiers x source {a,b,c} (source c = the structure alone, Complement set on the SubLocations; sources a, b lay the text out on lines of at most 58 columns); " +
+		"reference field subsets: a reference given with each of the 32 subsets of {" + strings.Join(c03RefFields, ", ") + "} (none to all five; e.g. TITLE without AUTHORS, REMARK without PUBMED), all other fields empty, as {" + strings.Join(c03RefPlaces, ", ") + "} (the other reference complete) x source {a,b,c} on a 345-letter record, with and without a COMMENT block after the references; " +
+		"partial ends on and around complemented nodes: two features with the location {" + c03PartialShapeNames() + "} x length {12,345} x 1 or 2 qualifiers x source {a,b,c} (source c = the structure alone: FivePrimePartial/ThreePrimePartial and Complement on the same node for complement(<a..b)); "
+	randDom := fmt.Sprintf("plus %d seeded-random records (sources cycling a,b,c): length 1..100000 (digit count uniform), locus name 1..40 characters (17..40 in one case of twelve), in structured records ORGANISM and/or an extra keyword text empty in up to three cases of eight, 0..40 features with 0..8 qualifiers (values over printable ASCII without the double quote, single-spaced words, up to 230 characters), 0..5 references with optional TITLE/PUBMED/REMARK, COMMENT/DBLINK/PROJECT/SEGMENT blocks, metadata texts up to 2000 characters, in one record in five one blank-free token of 69..300 characters inside one of the texts (DEFINITION, KEYWORDS, SOURCE, ORGANISM, a reference field or an extra keyword block), in one structured record in six a non-empty subset of the LOCUS columns molecule type, topology, division, date left empty; in every other random record each join gets, with probability 1/2, a random non-empty set of complemented operands; in every other triple of consecutive random records (all three sources) each reference loses each of AUTHORS, TITLE, JOURNAL, PUBMED with probability 1/4, each single span gets with probability 1/2 the markers <, > or both (also inside complement()), and each join with probability 1/2 such markers on a random non-empty set of its operands (complemented or not); every 50th random case goes through Write and Read on a temporary file; ", nRand)
 	runs := []*verifRun{
 		newVerifRun("C03", "io/genbank.Build/determinism", src+shapeDom+randDom+fmt.Sprintf("the same record value written %d times (64 times above 20000 letters), the first write being the first the freshly assembled record goes through, all outputs byte-identical; where they differ and the record is no longer equal to the deep copy taken before the first write the class is record-altered-by-writing; non-trivial = at least 2 Meta.Other keys, a feature with at least 2 qualifiers, or a location without cached text that has a complemented node below its top level", c03Builds)),
 		newVerifRun("C03", "io/genbank.Build/post/roundtrip-no-panic", src+shapeDom+randDom+"Build(r) and Parse(Build(r)) return without a panic; every case counts; the field clauses below are evaluated on the cases that return"),
@@ -2811,10 +3062,27 @@ func TestVerifC03(t *testing.T) {
 		newVerifRun("C03", "io/genbank.Build/post/roundtrip-meta", src+shapeDom+randDom+"Parse(Build(r)) equals r as given (the copy) in Definition, Accession, Version, Keywords, Source, Organism and the Other map, and r after the writes equals the copy in them (class record-altered-by-writing otherwise); non-trivial = a text longer than 68 characters, a keyword with empty text or an Other key"),
 		newVerifRun("C03", "io/genbank.Build/post/roundtrip-references", src+shapeDom+randDom+"Parse(Build(r)) equals r as given (the copy) in every reference's Index, Range, Authors, Title, Journal, PubMed, Remark, and r after the writes equals the copy in them (class record-altered-by-writing otherwise); non-trivial = at least one reference"),
 		newVerifRun("C03", "io/genbank.Build/post/roundtrip-features", src+shapeDom+randDom+"Parse(Build(r)) equals r as given (the deep copy taken before the first write) in feature count, order, keys, locations (text where r has text, structure otherwise) and qualifier maps, and nothing the writer was given is altered: after the writes (one Build, the further Builds of the determinism clause, Write where the case goes through a file) r itself equals the copy in feature keys, location text, the whole SequenceLocation tree and qualifier maps (class record-altered-by-writing otherwise); non-trivial = at least one feature"),
-		newVerifRun("C03", "io/genbank.Build/post/layout", src+shapeDom+randDom+"an independent column-strict reader (keyword field columns 1-12, sub-keywords indented 2-3, continuation lines blank in 1-12, FEATURES header, key column 6, location/qualifier column 22, ORIGIN rows '%9d' + six groups of ten, // last) recovers every field of r as given (the copy) from the first Build(r); every case counts"),
+		newVerifRun("C03", "io/genbank.Build/post/layout", src+shapeDom+randDom+"an independent column-strict reader (keyword field columns 1-12, sub-keywords indented 2-3, continuation lines blank in 1-12, FEATURES header, key column 6, location/qualifier column 22, ORIGIN rows '%9d' + six groups of ten, // last) recovers every field of r as given (the copy) from the first Build(r), the location of a feature given without text being compared with the INSDC text of its structure except for the place of a 3' marker (a..>b and a..b> are read as the same partial end: where the writer puts that marker is C02's clause BuildLocationString/post/insdc); every case counts"),
 	}
 	for _, v := range runs {
 		v.Sampled()
+	}
+	// harness self-check: the location shapes of the partial enumeration are written as they are named
+	for si := range c03PartialShapes {
+		var ft c03Feat
+		c03SetPartialShape(rand.New(rand.NewSource(1)), &ft, &c03PartialShapes[si], 40)
+		want := c03PartialShapes[si].name
+		for k, r := range ft.Ranges {
+			lo, hi := []string{"a", "c"}[k], []string{"b", "d"}[k]
+			want = strings.Replace(strings.Replace(want, ".."+hi, ".."+strconv.Itoa(r[1]), 1), "..>"+hi, "..>"+strconv.Itoa(r[1]), 1)
+			want = strings.Replace(want, lo+"..", strconv.Itoa(r[0])+"..", 1)
+		}
+		if got := c03LocText(&ft); got != want {
+			t.Fatalf("partial shape %q is written %q, expected %q", c03PartialShapes[si].name, got, want)
+		}
+	}
+	if got := c03MarkerPlace("join(complement(<1..>30),4..>5,7..9)"); got != "join(complement(<1..30>),4..5>,7..9)" {
+		t.Fatalf("c03MarkerPlace: %q", got)
 	}
 
 	type shape struct {
@@ -3032,6 +3300,61 @@ func TestVerifC03(t *testing.T) {
 		c03SetMode(&f, o.mode)
 		return c03Eval(fmt.Sprintf("complemented-operands=%s join-arity=%d inside-complement=%v len=%d qualifiers=%d source=%s", c03OpComplPatterns[o.pattern], o.arity, o.outer, o.n, o.nq, c03ModeNames[o.mode]), &f, "")
 	})
+	// references given with any subset of their fields
+	type refsub struct {
+		mask, place, mode int
+	}
+	var refsubs []refsub
+	for mask := 0; mask < 1<<len(c03RefFields); mask++ {
+		for place := range c03RefPlaces {
+			for mode := 0; mode < 3; mode++ {
+				refsubs = append(refsubs, refsub{mask, place, mode})
+			}
+		}
+	}
+	c03Parallel(len(refsubs), runs, func(i int) []c03Out {
+		x := refsubs[i]
+		rng := c03Rng(10, i)
+		r := c03ShapeRec(rng, 345, 1, 1, c03VPlain, 1)
+		r.Pubmed3 = i%2 == 1
+		switch x.place {
+		case 0:
+			r.Refs = []c03Ref{c03RefSubset(rng, x.mask)}
+		case 1:
+			r.Refs = []c03Ref{c03RefSubset(rng, x.mask), c03RefSubset(rng, 31)}
+		default:
+			r.Refs = []c03Ref{c03RefSubset(rng, 31), c03RefSubset(rng, x.mask)}
+		}
+		if i%4 >= 2 {
+			r.Others = []c03KV{{"COMMENT", []string{c03Text(rng, c03MetaAlpha, 40)}, false}}
+		}
+		f := c03File{Recs: []c03Rec{r}, FinalNL: true}
+		c03SetMode(&f, x.mode)
+		return c03Eval(fmt.Sprintf("reference-fields=%s place=%s comment=%v source=%s", c03RefMaskName(x.mask), c03RefPlaces[x.place], i%4 >= 2, c03ModeNames[x.mode]), &f, "")
+	})
+	// partial markers on complemented spans, on operands of joins and inside complement(join())
+	type partial struct {
+		shape, n, nq, mode int
+	}
+	var partials []partial
+	for shape := range c03PartialShapes {
+		for _, n := range []int{12, 345} {
+			for mode := 0; mode < 3; mode++ {
+				partials = append(partials, partial{shape, n, 1 + len(partials)%2, mode})
+			}
+		}
+	}
+	c03Parallel(len(partials), runs, func(i int) []c03Out {
+		x := partials[i]
+		rng := c03Rng(11, i)
+		r := c03ShapeRec(rng, x.n, 2, x.nq, c03VPlain, 1)
+		for fi := range r.Feats {
+			c03SetPartialShape(rng, &r.Feats[fi], &c03PartialShapes[x.shape], x.n)
+		}
+		f := c03File{Recs: []c03Rec{r}, FinalNL: true}
+		c03SetMode(&f, x.mode)
+		return c03Eval(fmt.Sprintf("partial-location=%s len=%d qualifiers=%d source=%s", c03PartialShapes[x.shape].name, x.n, x.nq, c03ModeNames[x.mode]), &f, "")
+	})
 	c03Parallel(nRand, runs, func(i int) []c03Out {
 		rng := c03Rng(3, i)
 		mode := i % 3
@@ -3055,6 +3378,48 @@ func TestVerifC03(t *testing.T) {
 					ft.OpCompl[k] = orng.Intn(2) == 0
 				}
 				ft.OpCompl[orng.Intn(len(ft.OpCompl))] = true
+				c03FitBreaks(ft)
+			}
+		}
+		if (i/3)%2 == 1 {
+			// every other triple of random records (so all three sources, with and
+			// without the complemented operands above), from a stream of its own:
+			// each reference loses each of AUTHORS, TITLE, JOURNAL, PUBMED with
+			// probability 1/4; each single span that is not a single base gets,
+			// with probability 1/2, markers drawn from {<, >, <>}, each join with
+			// probability 1/2 markers on a random non-empty set of its operands
+			prng := c03Rng(9, i)
+			for ri := range f.Recs[0].Refs {
+				x := &f.Recs[0].Refs[ri]
+				if prng.Intn(4) == 0 {
+					x.Authors = nil
+				}
+				if prng.Intn(4) == 0 {
+					x.Title = nil
+				}
+				if prng.Intn(4) == 0 {
+					x.Journal = nil
+				}
+				if prng.Intn(4) == 0 {
+					x.PubMed = ""
+				}
+			}
+			for fi := range f.Recs[0].Feats {
+				ft := &f.Recs[0].Feats[fi]
+				if ft.Single || prng.Intn(2) == 0 {
+					continue
+				}
+				if !ft.Join {
+					ft.Partial = 1 + prng.Intn(3)
+					continue
+				}
+				ft.OpPartial = make([]int, len(ft.Ranges))
+				for k := range ft.OpPartial {
+					if prng.Intn(3) == 0 {
+						ft.OpPartial[k] = 1 + prng.Intn(3)
+					}
+				}
+				ft.OpPartial[prng.Intn(len(ft.OpPartial))] = 1 + prng.Intn(3)
 				c03FitBreaks(ft)
 			}
 		}
